@@ -368,6 +368,8 @@ def run(seed=0, rounds=400):
         check('dict-equality-is-pointwise', (da == db) == (set(da) == set(db) and all(da[k] == db[k] for k in da)), da, db)
     from native import axioms_c13
     axioms_c13.run(rng, check)
+    from native import axioms_c11b  # L-RADIX, ground L-DIVMOD, searchsorted on object arrays, Axis callee contract, A-NF-S / A-NF-P (C11 second round)
+    axioms_c11b.run(check, rng)
     print('AXIOMS ' + json.dumps(dict(rounds=rounds, failures=fails[:5])))
     ok_sets = run_sets(seed)
     ok_ev = evaluable_nodes(seed)
